@@ -1,2 +1,37 @@
-From BFS Require Import Backup.History.
-Example placeholder_C07 : True. Proof. exact I. Qed.
+(** C07 — Rollback leaves a clean slate.  Theorems about the model's
+    [b_rollback] for *arbitrary* base and backup filesystems (any layering,
+    with or without faults). *)
+From stdpp Require Import gmap.
+From BFS Require Import Backup.History Proofs.RollbackFacts.
+From BFS Require Import Generated.LockTable Conc.Locks.
+
+(** a Rollback with nothing tracked is a no-op: it issues no primitive call,
+    changes nothing, returns nil *)
+Theorem C07_second_rollback_noop :
+  forall base backup w, w_infos w = ∅ -> b_rollback base backup w = (MOk tt, w).
+Proof. exact rollback_empty_noop. Qed.
+Print Assumptions C07_second_rollback_noop.
+
+(** whenever Rollback runs to its end (no crash), successfully or not, no
+    path is tracked any more *)
+Theorem C07_rollback_clears :
+  forall base backup w r w', b_rollback base backup w = (r, w') -> r <> MHalt -> w_infos w' = ∅.
+Proof. exact rollback_clears. Qed.
+Print Assumptions C07_rollback_clears.
+
+(** a BackupFS has no state besides [baseInfos] (and the mutex): every
+    operation of the model is a function of the world only, and in the Go
+    source the struct has exactly the fields base, backup, baseInfos, mu
+    (regenerated from the AST on every run).  Hence an instance whose map is
+    empty behaves exactly like a freshly constructed one over the same two
+    filesystems. *)
+Theorem C07_fresh :
+  struct_ok = true /\
+  forall c ops w w0,
+    w_infos w = ∅ -> w0 = mkWorld (w_st w) (w_trace w) (w_ticks w) (w_crash w) (w_faults w) ∅ ->
+    run_history c ops w = run_history c ops w0.
+Proof. split; [vm_compute; reflexivity | exact fresh_instance_equiv]. Qed.
+Print Assumptions C07_fresh.
+
+Example C07_example : exists w : world, w_infos w = ∅ /\ b_rollback osfs osfs w = (MOk tt, w).
+Proof. exists init_world. split; [reflexivity | apply rollback_empty_noop; reflexivity]. Qed.
